@@ -393,8 +393,49 @@ pub fn check_span_obj(j: &J, sp: &SpanM, effective: &[usize], notes: &mut Notes)
     if let Some(p) = taken.iter().position(|t| !t) {
         return Err(mm("invented_field", format!("{what}: unexpected key {:?} = {}", obj[p].0, show(&obj[p].1))));
     }
+    // One type mapping for span fields, whenever they were recorded.  Where this judge accepts
+    // two renderings of a value (a byte slice as number array or as its Debug text), the one
+    // used for fields given at span creation and the one used for fields recorded later have to
+    // be the same one (process-wide observation).
+    for (f, name) in sp.site.fields.iter().enumerate() {
+        let latest = effective.iter().rev().find_map(|&si| sp.steps[si].vals.iter().rev().find(|(ff, e, _)| *ff == f && !matches!(e, Exp::Absent)).map(|(_, e, _)| (si, e)));
+        let Some((si, e)) = latest else { continue };
+        let forms = key_forms(name);
+        let Some((fi, entry)) = forms.iter().enumerate().find_map(|(fi, form)| obj.iter().find(|(k, _)| k == form).map(|x| (fi, x))) else { continue };
+        let when = if si == 0 { 0 } else { 1 };
+        let mut seen: Vec<(usize, u8, &str)> = vec![];
+        if matches!(e, Exp::Bytes(_)) {
+            seen.push((0, if matches!(entry.1, J::Arr(_)) { 1 } else { 2 }, "a byte slice (1 = number array, 2 = Debug text)"));
+        }
+        // (raw-identifier names are NOT compared this way: whether `r#` is kept depends on the
+        // value's type in the pinned tree, at creation and later alike)
+        let _ = fi;
+        for (base, bit, desc) in seen {
+            let mine = SPAN_MAPPING[base + when].fetch_or(bit, std::sync::atomic::Ordering::SeqCst) | bit;
+            let other = SPAN_MAPPING[base + 1 - when].load(std::sync::atomic::Ordering::SeqCst);
+            if other != 0 && other != mine {
+                return Err(mm(
+                    "span_mapping_depends_on_when_recorded",
+                    format!(
+                        "{what}: field {name:?}, recorded {}, renders {desc} as {bit}; span fields recorded {} were rendered as {other} (bit set) in this process",
+                        if when == 0 { "at span creation" } else { "after span creation" },
+                        if when == 0 { "after creation" } else { "at creation" }
+                    ),
+                ));
+            }
+        }
+    }
     Ok(())
 }
+
+/// [bytes at creation, bytes later, raw name at creation, raw name later]: bit sets of the
+/// renderings observed so far in this process
+static SPAN_MAPPING: [std::sync::atomic::AtomicU8; 4] = [
+    std::sync::atomic::AtomicU8::new(0),
+    std::sync::atomic::AtomicU8::new(0),
+    std::sync::atomic::AtomicU8::new(0),
+    std::sync::atomic::AtomicU8::new(0),
+];
 
 #[derive(Default)]
 pub struct SpanVerdict {
